@@ -30,4 +30,29 @@ Orth(M, r0) ==
 Rows(M, r, k) == r[k + 1] * M[k + 1]
 Cols(M, r, k) == M[k + 2] * r[k + 3]
 StepOut(rows, rsvd, kick, finalsweep) == IF finalsweep THEN rsvd ELSE Min2(rows, rsvd + kick)
+
+(***************************************************************************)
+(* Accuracy ledger of the sweeps (property-derived inequalities, checked   *)
+(* on recorded runs by TraceDmrg / TraceAmen).  Magnitudes are logarithmic *)
+(* integers L(x) = floor(1024 log2 x) as in spec/TraceTrunc.tla.  CL is    *)
+(* L(10): the "small constant" of properties C11 / C12 / C13 (the same     *)
+(* constant the end-to-end comparison with the dense result uses).         *)
+(*   LastChop   in the sweep that produces the returned cores, a bond that *)
+(*              is neither capped by rmax nor kept in full discards at     *)
+(*              most (C eps)^2 |S|^2 / (d-1) of the energy                 *)
+(*   Converged  the routine may declare convergence (set `last`) after a   *)
+(*              sweep only if every step of that sweep measured a change / *)
+(*              residual below C eps                                       *)
+(*   ResTrunc   (residual-driven truncation of amen_solve / amen_divide)   *)
+(*              the local residual of the kept rank is at most             *)
+(*              C max(eps / sqrt d, residual of the untruncated solution)  *)
+(***************************************************************************)
+CL == 3401
+LSLACK == 16
+LZERO == -1073741824
+LMeasured(x) == x > -1073741823 /\ x < 1073741823
+Max2(a, b) == IF a >= b THEN a ELSE b
+LastChopOK(tail2, norm2, eps, dm1) == tail2 = LZERO \/ tail2 <= 2 * eps + norm2 - dm1 + 2 * CL + LSLACK
+SmallCrit(crit, eps) == crit = LZERO \/ crit < eps + CL + LSLACK
+ResTruncOK(restr, resnew, eps, sqrtd) == restr = LZERO \/ restr <= Max2(eps - sqrtd, resnew) + CL + LSLACK
 =============================================================================
